@@ -20,7 +20,17 @@ func (x *Exec) execBlock(stmts []ast.Stmt, st *State) []*State {
 				next = append(next, c)
 				continue
 			}
-			next = append(next, x.execStmt(s, c)...)
+			for _, r := range x.execStmt(s, c) {
+				if _, cut := r.names["$cut"]; cut {
+					// `opt return-after = f`: the unit ends with the statement that called f
+					delete(r.names, "$cut")
+					if r.out == outNormal {
+						r.out = outReturn
+						r.rets = nil
+					}
+				}
+				next = append(next, r)
+			}
 		}
 		cur = next
 		if len(cur) > maxPaths {
